@@ -51,13 +51,15 @@ Definition runs_list (iterations : Z) (prod : list kw) : list run :=
 (* ---- the model class BM ---- *)
 (* p_ic / p_sc: how many times the model collects at construction / inside every step; between two
    collects made at the same model.steps it changes a model-level value and every agent *)
-Record params := { p_n : Z; p_stop : option Z; p_ic : nat; p_sc : nat; p_ar : bool; p_churn : bool; p_k : Z }.
+Record params := { p_n : Z; p_stop : option Z; p_ic : nat; p_sc : nat; p_ar : bool; p_churn : bool; p_k : Z; p_mc : Z }.
+(* p_mc: agent churn BETWEEN two collects of one step: 1 = every agent is removed, 2 = an agent is created,
+   3 = the first agent is removed, 4 = every agent is removed when the model has just stopped (final step) *)
 Definition kwget (k : kw) (name def : Z) : Z := match aget name k with Some v => v | None => def end.
 Definition params_of (k : kw) : params :=
   {| p_n := kwget k 0 2;
      p_stop := match aget 1 k with Some v => if v =? -1 then None else Some v | None => None end;
      p_ic := Z.to_nat (kwget k 2 0); p_sc := Z.to_nat (kwget k 3 1); p_ar := negb (kwget k 4 1 =? 0);
-     p_churn := negb (kwget k 5 0 =? 0); p_k := kwget k 6 0 |}.
+     p_churn := negb (kwget k 5 0 =? 0); p_k := kwget k 6 0; p_mc := kwget k 9 0 |}.
 
 Definition bm_cfg (p : params) : config :=
   {| c_mreps := [(0, MRFun false FSteps); (1, MRMethod (FSum 0)); (2, MRAttr 1); (3, MRAttr 2)];
@@ -78,17 +80,25 @@ Definition inc_vals (w : world) : world :=       (* every agent: val += 1 *)
   with_agents w (map (fun a => {| a_id := a_id a; a_cls := a_cls a;
                                   a_attrs := aset 0 (attr0 a 0 + 1) (a_attrs a) |}) (w_agents w)).
 
-(* between two collects at the same model.steps: self.t += self.steps + 1; every agent's val += 1 *)
+(* between two collects at the same model.steps: self.t += self.steps + 1; every agent's val += 1; then agents
+   come and go as p_mc says *)
 Definition attr_t (w : world) : Z := match aget 2 (w_attrs w) with Some (MInt z) => z | _ => 0 end.
-Definition bm_mutate (m : bm) : bm :=
-  {| b_w := inc_vals (wstep (b_w m) (SetAttr 2 (attr_t (b_w m) + w_steps (b_w m) + 1)));
+Definition mutate_agents (p : params) (running : bool) (w : world) : world :=
+  if p_mc p =? 1 then with_agents w []
+  else if p_mc p =? 2 then wstep w (Create 0 [(0, p_k p)])
+  else if p_mc p =? 3 then match w_agents w with a :: _ => wstep w (Remove (a_id a)) | [] => w end
+  else if (p_mc p =? 4) && negb running then with_agents w []
+  else w.
+Definition bm_mutate (p : params) (m : bm) : bm :=
+  {| b_w := mutate_agents p (b_running m)
+              (inc_vals (wstep (b_w m) (SetAttr 2 (attr_t (b_w m) + w_steps (b_w m) + 1))));
      b_d := b_d m; b_running := b_running m; b_trace := b_trace m |}.
 (* for j in range(c): (mutate if j > 0); collect *)
 Fixpoint bm_collects (p : params) (c : nat) (m : bm) : bm :=
   match c with
   | O => m
   | S j => let m1 := bm_collects p j m in
-           bm_collect p (match j with O => m1 | S _ => bm_mutate m1 end)
+           bm_collect p (match j with O => m1 | S _ => bm_mutate p m1 end)
   end.
 
 Definition bm_init (p : params) : bm :=
